@@ -527,9 +527,14 @@ func (txr *TxReplicator) fetchNextTx() error {
 
 	if len(etx) > 0 {
 		// in some cases the transaction is not provided but only the primary commit state
-		txr.prefetchTxBuffer <- prefetchTxEntry{
+		select {
+		case txr.prefetchTxBuffer <- prefetchTxEntry{
 			data:    etx,
 			addedAt: time.Now(),
+		}:
+		case <-txr.context.Done():
+			// stopped while the buffer is full: the workers are gone and will not drain it
+			return ErrAlreadyStopped
 		}
 		if simhook.Enabled {
 			simhook.Yield("txr-prefetch-sent")
